@@ -159,8 +159,10 @@ macro_rules! impl_dyn {
     };
 }
 
-/// The reference model: `std::vec::IntoIter` over the ground-truth list.
-pub struct ModelIter<T>(pub std::vec::IntoIter<T>);
+/// The reference model: `std::vec::IntoIter` over the ground-truth list. `.1` says that the item
+/// type of the struct under test orders its values in reverse (see `Module::ord_reversed`): the three
+/// methods that use the item's own `Ord` (`max`, `min`, `is_sorted`) then answer for that order.
+pub struct ModelIter<T>(pub std::vec::IntoIter<T>, pub bool);
 
 impl<T: Item> DynIter<T> for ModelIter<T> {
     fn next(&mut self) -> Option<T> {
@@ -218,10 +220,18 @@ impl<T: Item> DynIter<T> for ModelIter<T> {
         self.0.rposition(|x| f(x))
     }
     fn max(self: Box<Self>) -> Option<T> {
-        self.0.max()
+        if self.1 {
+            self.0.max_by(|a, b| b.cmp(a))
+        } else {
+            self.0.max()
+        }
     }
     fn min(self: Box<Self>) -> Option<T> {
-        self.0.min()
+        if self.1 {
+            self.0.min_by(|a, b| b.cmp(a))
+        } else {
+            self.0.min()
+        }
     }
     fn max_by(self: Box<Self>, f: &mut dyn FnMut(&T, &T) -> Ordering) -> Option<T> {
         self.0.max_by(|a, b| f(a, b))
@@ -236,12 +246,20 @@ impl<T: Item> DynIter<T> for ModelIter<T> {
         self.0.min_by_key(|a| f(a))
     }
     fn is_sorted(self: Box<Self>) -> bool {
-        self.0.is_sorted()
+        if self.1 {
+            self.0.is_sorted_by(|a, b| b <= a)
+        } else {
+            self.0.is_sorted()
+        }
     }
 }
 
 pub fn model<T: Item>(items: Vec<T>) -> Dyn<T> {
-    Dyn(Box::new(ModelIter(items.into_iter())))
+    Dyn(Box::new(ModelIter(items.into_iter(), false)))
+}
+
+pub fn model_ord<T: Item>(items: Vec<T>, reversed: bool) -> Dyn<T> {
+    Dyn(Box::new(ModelIter(items.into_iter(), reversed)))
 }
 
 /// The one non-generic wrapper; see module doc.
